@@ -50,6 +50,13 @@ Proof.
   destruct r; split; intros [[H1 H2] H3] || intros (H1 & H2 & H3); try discriminate; try congruence; auto.
 Qed.
 
+(* check_kroute decides kroute_ok *)
+Theorem check_kroute_spec g d s t r : check_kroute g d s t r = true <-> kroute_ok g d s t r.
+Proof.
+  unfold check_kroute, kroute_ok. rewrite andb_true_iff, walk_b_spec, negb_true_iff.
+  destruct r; split; intros [H1 H2]; try discriminate; try congruence; auto.
+Qed.
+
 (* check_eroute decides eroute_ok *)
 Theorem check_eroute_spec g d e1 e2 r : check_eroute g d e1 e2 r = true <-> eroute_ok g d e1 e2 r.
 Proof.
